@@ -129,8 +129,19 @@ def age(s, rng, steps=None, allow=("size", "axis", "radius", "move", "core", "ri
                         d[2] = 0.0
                     elif not fingerprint.is3d(s) and not hasattr(s, "vertices"):
                         d[2] = 0.0 if rng.random() < 0.7 else d[2]
-                    setattr(s, nm, _where(s) + d)
-                    log.append(f"{nm}+=({d[0]:.3g},{d[1]:.3g},{d[2]:.3g})")
+                    target = _where(s) + d
+                    form = int(rng.integers(3))
+                    if form == 0:
+                        setattr(s, nm, target)
+                    elif form == 1:
+                        setattr(s, nm, [float(x) for x in target])
+                    else:
+                        # the caller's own position buffer: handed over, then reused by the caller for something else
+                        buf = np.array(target, dtype=np.float64)
+                        setattr(s, nm, buf)
+                        buf += 7.77 * size + 1.0
+                        buf[:] = np.nan
+                    log.append(f"{nm}+=({d[0]:.3g},{d[1]:.3g},{d[2]:.3g})" + ("" if form < 2 else " [caller reuses the array afterwards]"))
                 elif kind == "core":
                     core = s.polyhedron if hasattr(cls, "polyhedron") else s.polygon
                     nm = "volume" if hasattr(type(core), "volume") else "area"
